@@ -18,6 +18,7 @@ CONSTANTS
   Filter = "thorough"
   NoLockSet = {FALSE, TRUE}
   TickInList = FALSE
+  WBFlock = TRUE
   POR = TRUE
   MaxHist = 80
 INVARIANTS Emit
